@@ -8,9 +8,22 @@ use std::{
 
 // only pub(crate) so that the macro calls can all use the same epoch static
 #[doc(hidden)]
+#[cfg(not(kani))]
 pub(crate) fn time_since_arbitrary_epoch() -> Duration {
     static EPOCH: OnceLock<Instant> = OnceLock::new();
     Instant::now().duration_since(*EPOCH.get_or_init(Instant::now))
+}
+
+/// Verification model (only compiled by `cargo kani`): the time since the arbitrary epoch is an arbitrary
+/// non-decreasing number of seconds, so every rate-limiting decision is explored by the solver.
+#[doc(hidden)]
+#[cfg(kani)]
+pub(crate) fn time_since_arbitrary_epoch() -> Duration {
+    static SECS: std::sync::atomic::AtomicU64 = std::sync::atomic::AtomicU64::new(0);
+    let step: u32 = kani::any();
+    let now = SECS.load(std::sync::atomic::Ordering::Relaxed) + step as u64;
+    SECS.store(now, std::sync::atomic::Ordering::Relaxed);
+    Duration::from_secs(now)
 }
 
 /// `rate_limited!(duration, expr)` will cause `expr` to only be evaluated at most once every `duration` across all
